@@ -46,6 +46,12 @@ def handleLine (line : String) : String :=
     | "c14n" => viaSpec (C14.handleNum args) obs
     | "c01" => Req.handleC01 args obs
     | "c01s" => Req.handleSeq args obs
+    | "c19a" =>
+      -- steady traffic under a per-file age limit: every line once, in order, and no file older than its age by more than an event
+      -- (the writer decides rotation per event: `LogFiles.onEvent`, theorem C19_step)
+      let model := "complete_in_order=1 within_age=1"
+      model ++ "\t" ++ (if obs == model then "ok" else if obs == "PANIC" then "FAIL:panic:" else "FAIL:" ++
+        (if (obs.splitOn " ").contains "complete_in_order=1" then "file-over-max-age" else "lines-lost-duplicated-or-reordered") ++ ":")
     | "c10s" =>
       -- k stalled uploads hold k files; an upload that is abandoned meanwhile leaves none; at the end none is left
       -- (per connection: `C10_no_leak`; connections do not share anything that one of them could be waiting for)
